@@ -205,6 +205,21 @@ def answer (line : String) : String :=
     match parseMsmKzg m with
     | some m => pointStr m.eval ++ " " ++ fmtBool m.check
     | none => "bad-op"
+  | "msm-from-many" :: ms =>
+    match ms.mapM parseMsmKzg with
+    | some ms => let m := MsmKzg.fromMany ms; fmtMsmKzg m ++ " " ++ pointStr m.eval
+    | none => "bad-op"
+  | ["msm-from-base", b] =>
+    match parseFr b with
+    | some b => let m : MsmKzg Fr Fr := MsmKzg.fromBase b; fmtMsmKzg m ++ " " ++ pointStr m.eval
+    | none => "bad-op"
+  | ["msm-new", bases, scalars, fixed] =>
+    match (splitList bases ",").mapM parseFr, (splitList scalars ",").mapM parseFr, parseMap fixed with
+    | some bs, some ss, some f =>
+      match Msm.new? bs ss f with
+      | some m => fmtMsm false m
+      | none => "panic"
+    | _, _, _ => "bad-op"
   | "dual-seq" :: mode :: tau :: d0 :: ops =>
     match parseFr tau, parseDual d0 with
     | some tau, some d0 =>
